@@ -402,6 +402,20 @@ class Engine:
         self.checks.append((label, st, self._model_values(m) if m is not None else None))
         return st == 'ok'
 
+    def check_attainable(self, label, *conds):
+        """Existential obligation (symbolic mode): on this path there must EXIST inputs satisfying each of conds (e.g. 'the endpoint can be drawn').
+        sat -> discharged; unsat -> counterexample (any model of the path; the harness's concrete branch decides the same label by enumeration or
+        by a real draw); unknown -> an inconclusive obligation, never a verdict."""
+        assert self.mode == 'sym'
+        verdicts = [self.sat_witness(label, c) if not isinstance(c, (bool, np.bool_)) else bool(c) for c in conds]
+        if any(v is False for v in verdicts):
+            return self.check(label, False)
+        if any(v is None for v in verdicts):
+            self.checks.append((label, 'unknown', None))
+            return False
+        self.checks.append((label, 'ok', None))
+        return True
+
     def sat_witness(self, label, cond):
         """Attainability obligation: there must EXIST inputs on this path satisfying cond (e.g. 'endpoint attainable').
         Returns True/False/None. Recorded as a note, evaluated by the harness via E.note()."""
